@@ -163,6 +163,7 @@ type propRun struct {
 	solverStats                               map[string]int
 	extra                                     map[string]interface{}
 	extraDischarged                           []string // ids discharged by def.Extra (recorded in the baseline)
+	boundedReport                             []string // one line per bounded stand-in run (never counted as proved)
 }
 
 func (r *propRun) exec() int {
@@ -472,6 +473,7 @@ func (r *propRun) exec() int {
 			r.broken = append(r.broken, fmt.Sprintf("obligation count dropped: %d discharged now, %d recorded", r.nDischarged, len(bl.Discharged)))
 		}
 	}
+	r.runBounded()
 	// known findings that no longer fail are fine (defect repaired); nothing to do.
 	if def.Extra != nil {
 		before := r.nDischarged
@@ -600,7 +602,7 @@ func (r *propRun) writeEvidence() error {
 		"known_finding_obligations":         knownIDs,
 		"undecided_obligations_not_claimed": undecided,
 		"undecided_clauses":                 def.Undecided,
-		"bounded":                           def.Bounded,
+		"bounded":                           append(append([]string{}, def.Bounded...), r.boundedReport...),
 		"discharged_by_solver":              bySolver,
 		"solver_time_s":                     r.solverTime,
 		"abstractions_applied":              notes,
@@ -639,3 +641,46 @@ func List() {
 		fmt.Printf("%s  %s\n", id, Props[id].Title)
 	}
 }
+
+// runBounded runs the bounded stand-ins of the property on the real code. A stand-in that finds a
+// failing input is a violation with that input; one that does not run is reported as broken.
+func (r *propRun) runBounded() {
+	for _, bc := range r.def.BoundedChecks {
+		if r.only != "" && !strings.HasPrefix(bc.ID, r.only) {
+			continue
+		}
+		src, err := os.ReadFile(filepath.Join(verifDir, "spec", "bounded", bc.File))
+		if err != nil {
+			r.broken = append(r.broken, "bounded stand-in "+bc.ID+": "+err.Error())
+			continue
+		}
+		t0 := time.Now()
+		out, rerr := RunOverlayTest(r.repo, bc.Pkg, string(src), "TestBoundedVC")
+		line := ""
+		for _, ln := range strings.Split(out, "\n") {
+			if strings.Contains(ln, "BOUNDED-VIOLATED") || strings.Contains(ln, "BOUNDED-OK") {
+				line = strings.TrimSpace(ln)
+				if strings.Contains(ln, "BOUNDED-VIOLATED") {
+					break
+				}
+			}
+		}
+		switch {
+		case strings.Contains(line, "BOUNDED-VIOLATED"):
+			id := r.def.ID + ".bounded." + bc.ID
+			path := filepath.Join(r.replayDir(), smt.Sanitize(id)+".json")
+			m := map[string]interface{}{"property": r.def.ID, "obligation": id, "kind": "bounded stand-in (exhaustive run of the real function up to the bound)",
+				"bound": bc.Bound, "claim": bc.Claim, "failing_input": line, "test": string(src), "output": truncate(out, 4000)}
+			b, _ := json.MarshalIndent(m, "", " ")
+			os.MkdirAll(filepath.Dir(path), 0o755)
+			os.WriteFile(path, b, 0o644)
+			r.violations = append(r.violations, violation{id, path, false})
+			r.boundedReport = append(r.boundedReport, fmt.Sprintf("BOUNDED (not a proof) %s: %s -- FAILED: %s", bc.ID, bc.Bound, line))
+		case strings.Contains(line, "BOUNDED-OK"):
+			r.boundedReport = append(r.boundedReport, fmt.Sprintf("BOUNDED (not a proof) %s: %s; checked on each: %s -- %s (%.1fs)", bc.ID, bc.Bound, bc.Claim, line, time.Since(t0).Seconds()))
+		default:
+			r.broken = append(r.broken, fmt.Sprintf("bounded stand-in %s did not run: %v %s", bc.ID, rerr, truncate(out, 600)))
+		}
+	}
+}
+
